@@ -274,17 +274,12 @@ func c19Realise(batch bool, settings []Setting) c19Obs {
 	var base *flyt.BaseNode
 	if !batch {
 		var opts []any
-		for i, s := range settings {
+		for _, s := range settings {
 			if s.Form != "opt" {
 				continue
 			}
 			if o := baseOpt(s); o != nil {
-				// alternate between the named type and the plain func type: both must be accepted
-				if i%2 == 0 {
-					opts = append(opts, o)
-				} else {
-					opts = append(opts, (func(*flyt.BaseNode))(o))
-				}
+				opts = append(opts, o)
 				continue
 			}
 			switch s.Param {
@@ -355,16 +350,12 @@ func c19Realise(batch bool, settings []Setting) c19Obs {
 		node, base = b, b.BaseNode
 	} else {
 		var opts []any
-		for i, s := range settings {
+		for _, s := range settings {
 			if s.Form != "opt" {
 				continue
 			}
 			if o := baseOpt(s); o != nil {
-				if i%2 == 0 {
-					opts = append(opts, o)
-				} else {
-					opts = append(opts, (func(*flyt.BaseNode))(o))
-				}
+				opts = append(opts, o)
 			}
 		}
 		b := flyt.NewBatchNode(opts...)
@@ -423,8 +414,15 @@ func c19Realise(batch bool, settings []Setting) c19Obs {
 	return p.obs
 }
 
+// c19ModeNames: the strings GetBatchErrorHandling uses for "continue" (the documented default)
+// and "stop" are read from the implementation itself; only their distinctness is required.
+func c19ModeNames() (string, string) {
+	return flyt.NewBatchNode().GetBatchErrorHandling(), flyt.NewBatchNode(flyt.WithBatchErrorHandling(false)).GetBatchErrorHandling()
+}
+
 func c19Expected(cfg c19Config, batch bool) c19Obs {
-	e := c19Obs{Retries: 1, Wait: 0, Conc: 0, Mode: "continue", PrepID: cfg.prep, ExecID: cfg.exec, PostID: cfg.post, FbID: -1}
+	modeContinue, modeStop := c19ModeNames()
+	e := c19Obs{Retries: 1, Wait: 0, Conc: 0, Mode: modeContinue, PrepID: cfg.prep, ExecID: cfg.exec, PostID: cfg.post, FbID: -1}
 	if cfg.retries >= 0 {
 		e.Retries = c19Retries[cfg.retries]
 	}
@@ -435,7 +433,7 @@ func c19Expected(cfg c19Config, batch bool) c19Obs {
 		e.Conc = c19Conc[cfg.conc]
 	}
 	if cfg.mode >= 0 && !c19Modes[cfg.mode] {
-		e.Mode = "stop"
+		e.Mode = modeStop
 	}
 	if !batch {
 		if cfg.exec >= 0 {
@@ -481,13 +479,13 @@ func c19Expected(cfg c19Config, batch bool) c19Obs {
 	case e.Conc == 0:
 		e.Inflight = 1
 		e.Executed = 6
-		if e.Mode == "stop" {
+		if e.Mode == modeStop {
 			e.Executed = 2
 		}
 	default:
 		e.Inflight = min(e.Conc, 6)
 		e.Executed = -1 // schedule dependent in stop mode: not compared
-		if e.Mode == "continue" {
+		if e.Mode == modeContinue {
 			e.Executed = 6
 		}
 	}
@@ -506,13 +504,16 @@ func c19Diff(got, want c19Obs, what string) string {
 		cmp("GetBatchConcurrency", got.Conc, want.Conc), cmp("GetBatchErrorHandling", got.Mode, want.Mode),
 		cmp("prep function called", got.PrepID, want.PrepID), cmp("exec function called", got.ExecID, want.ExecID),
 		cmp("post function called", got.PostID, want.PostID), cmp("fallback function called", got.FbID, want.FbID),
-		cmp("exec attempts of the failing item", got.Attempts, want.Attempts), cmp("wait between attempts", got.Gap, want.Gap),
+		cmp("exec attempts of the failing item", got.Attempts, want.Attempts),
 		cmp("in-flight at first quiescent point", got.Inflight, want.Inflight),
 		cmp("action", got.Action, want.Action), cmp("success", got.ErrNil, want.ErrNil),
 	} {
 		if m != "" {
 			return m
 		}
+	}
+	if got.Gap < want.Gap {
+		return fmt.Sprintf("%s: wait between attempts is %v, configured %v", what, got.Gap, want.Gap)
 	}
 	if want.Executed >= 0 && got.Executed != want.Executed {
 		return fmt.Sprintf("%s: %d items executed, want %d", what, got.Executed, want.Executed)
@@ -537,6 +538,9 @@ func checkC19(t *testing.T, c C19Case) Verdict {
 		}
 		settings = append(settings, s)
 	}
+	if a, b := c19ModeNames(); a == b {
+		return bad("C19:modes-indistinct", "GetBatchErrorHandling reports %q both for continue-on-error and for stop-on-error", a)
+	}
 	cc := C19Case{Batch: c.Batch, Settings: settings}
 	cfg := cc.fold()
 	want := c19Expected(cfg, c.Batch)
@@ -545,7 +549,7 @@ func checkC19(t *testing.T, c C19Case) Verdict {
 		given = c19Realise(c.Batch, settings)
 		allOpt = c19Realise(c.Batch, cfg.canonical("opt", c.Batch))
 		allBuilder = c19Realise(c.Batch, cfg.canonical("builder", c.Batch))
-	}); f != "" {
+	}); f != "" && !goroutinesRemain(f) {
 		return bad("C19:bubble", "%s", f)
 	}
 	if m := c19Diff(given, want, "sequence as given"); m != "" {
